@@ -2828,6 +2828,11 @@ func hijackConnHandler(ctx *RequestCtx, r io.Reader, c net.Conn, s *Server, h Hi
 		c.Close()
 		s.releaseHijackConn(hjc)
 	}
+	if _, ok := r.(*bufio.Reader); ok && s.KeepHijackedConns && s.ReduceMemoryUsage {
+		// The escaped buffered reader reads through ctx.fbr (see acquireByteReader),
+		// so ctx must not be reset and recycled while the connection is kept.
+		return
+	}
 	s.releaseCtx(ctx)
 }
 
